@@ -335,20 +335,20 @@ RULES = {
     "C09": "cases = programs of 2-8 goroutines x 1-12 ops over the concurrency-safe API (Logger/Sugar log methods incl. terminal levels with returning hooks, Check, With, WithLazy, Named, WithOptions, Level, Sync, Sugar/Desugar, AtomicLevel Set/Level/Enabled/ServeHTTP/MarshalText, ReplaceGlobals/L/S, observer readers, slog handler derivation and Handle, BufferedWriteSyncer Write/Sync/Stop with a real 1ms ticker, Lock-ed syncer over a deliberately unsafe buffer, a second-level lazy child) on a composition of tee(JSON->Lock, console->Buffered, hooked observer) under a sampler, increase-level, logger hooks and a fresh or warmed WithLazy logger; half of the programs focus on 2-5 ops so that several goroutines perform the same first use; run under the race detector with halt_on_error (the program is dumped before it runs). Non-trivial = fresh shared objects and >= 2 goroutines touching one shared object with a writer-like op. Distinct = distinct programs (hash). Since session 3: reflected-context logger shared by all goroutines, unencodable reflected values (also last in the entry), error arrays, nested marshalers, deep stack captures, big entries, std-log bridge, zapgrpc, zapio, a BufferedWriteSyncer over the shared Lock-ed syncer, a Lock-ed syncer whose Sync fails with EINVAL/ENOTTY, and a per-program repeat factor 1-100. Since round 8: consumers scrubbing entries they took from a TakeAll-only observer; Filter with a panicking predicate. Since round 10: BufferedWriteSyncer with a time.NewTicker-based Clock and default interval; ObjectValues over mutex-guarded elements. Since round 11: one ReplaceGlobals restore function shared by goroutines. Since round 14: regress test on long-lived shared objects (an observer with thousands of entries, a sampler, an AtomicLevel) under the race detector with a watchdog.",
     "C19": "cases = (a) Open/Build fault sequences: 0-5 output and 0-4 error-output paths, each a scripted test-scheme URL (succeeds with a counting sink or fails), an unknown scheme, a path in a missing directory, a real file, stdout/stderr, an upper-case scheme with query/fragment, or a rejected file URL - every subset/position failing; Config error paths (missing level, unknown/empty/upper-case encoding, TimeKey without EncodeTime); (b) file URLs built from components (scheme case, user info, host, port, path needing escapes, query, fragment) so verdict and decoded path are known by construction; raw strings with invariants only; (c) RedirectStdLog/At under arbitrary prior flags/prefix/writer with valid and invalid levels; (d) sink scheme and encoder names from a grammar (valid, upper-case, empty, leading digit, illegal characters, non-ASCII incl. U+212A/U+017F/U+0130, duplicates in any case). Non-trivial = >= 2 sinks with a failure after a success; URL with exactly one disqualifying component; rejected registration. Distinct = distinct (mode, path-kind sequence) etc. Since session 3: file references whose decoded path cannot be created, with decoy directories for mis-decoded variants (job decoy); an encoder whose constructor fails; sinks whose Close fails during rollback. Since round 7: scheme-less relative paths with query or fragment. Since round 8: preset configurations do not alias (TestRegressC19Presets). Since round 9: concurrent registration of one scheme (400 trials x 8 goroutines behind a spin barrier). Since round 11: nested redirections undone innermost first. Since round 12: job lists (path lists drawn from one pool: repeats, shared destinations, same set); one- and two-character scheme names; raw strings opened from inside the scratch directory. Since round 14: file URLs spelled with more escapes than necessary. Since round 15: queries a form parser makes nothing of (separators only, semicolons, bad escapes). Since round 16: an encoder constructor that panics during Build leaves the registry usable; the standard logger previously pointed at NewStdLog's writer by hand.",
     "C12": "cases = rapid state machine over one BufferedWriteSyncer with Size in 1..64 or 4096 and a harness-owned ticker: Write of length {0, 1, exactly the free space, free+1, size, size+1, 3*size, random} with unique content, Sync, tick (processed = the recording sink saw the resulting Sync), Stop (repeated), and all of these after Stop; concurrent: 2-6 goroutines running scripts of framed writes, Sync, ticks and Stop against one syncer; crash: a child process runs a generated script against a real file through a sink that SIGKILLs the process at a generated sink-call index (before or after the call) or between two script ops, acknowledging after every returned Sync/first Stop. Oracle = model list of accepted writes (prefix, whole-write alignment of every sink write, held back <= Size, flushed+synced after Sync/first Stop/processed tick, no flush goroutine after Stop); crash: the file is a whole-write-aligned prefix containing everything acknowledged. Non-trivial = a write that does not fit into a non-empty buffer and a write larger than the buffer (crash: the kill landed). Distinct = distinct (size, op sequence) resp. crash points. Since session 3: the harness clock advances by drawn fractions of the interval between operations; job faults: scripted failing sink Write/Sync calls with the oracle 'nil from Sync/Stop implies delivered and synced; an error only after a sink fault; after Sync faults alone nothing is lost and every later Sync reaches the sink'. Since round 8: action reconfigure (Size reassigned after start). Since round 9: buffer sizes >= 4095 that are not block-aligned. Since round 10: value-typed field-less clock; exactly one ticker with the effective interval. Since round 12: job nested (a buffered syncer over a buffered syncer that is also written to directly: wholeness, per-writer order, no overtaking, Sync delivers both). Since round 14: Size left at 0 (the documented default) with the model of a 256 kB syncer. Since round 16: a Clock whose first NewTicker panics (the Write that triggered it accepts nothing; the syncer is as good as new). Since round 17: ticks that carry the zero time.",
-    "C13": "cases = payloads (empty, whitespace-only, with/without trailing newline or CRLF, leading/trailing spaces, up to 1 MiB, arbitrary bytes) on zapio.Writer (enabled and disabled), the std-log bridge writer (NewStdLog, NewStdLogAt, RedirectStdLog+log.Writer), zaptest.TestingWriter (plain and markFailed) and BufferedWriteSyncer (sizes 0..256 KiB); multi-syncers of 1-5 scripted sinks over 1-4 calls with a full outcome vector per sink and call (count in {len, 0, 1, len-1}, error or nil, Sync error or nil) and exhaustive enumeration of all 16^k vectors for k<=2 (+ a slice of k=3); AddSync/Lock relays over scripted results; 2-8 goroutines of Write/Sync through Lock onto an overlap-detecting sink. Non-trivial = the minimum count is not at index 0, or a payload the writer trims/splits. Distinct = distinct outcome matrices / payload classes. Since session 3: Lock/AddSync/CombineWriteSyncers must relay the very error value (io and errno values, PathError) and stay usable afterwards; concurrent Write/Sync through Lock over combined and buffered syncers. Since round 7: Write / io.WriteString / fmt.Fprintf as interchangeable routes (all two-sink vectors exhaustively), multi syncer under Lock. Since round 8: caller-owned syncer lists with io.Discard members, unchanged after NewMultiWriteSyncer, combinator built twice. Since round 9: sinks failing with identical error texts. Since round 10: sinks embedding a mutex under Lock; AddSync of writers with Flush/Close/Stop. Since round 11: BufferedWriteSyncer stopped once before its first use. Since round 12: Lock over groups whose members are locked already, and a locked member also used directly. Since round 14: job multilong (a multi syncer over thousands of writes with destinations down for up to 2100 of them). Since round 15: sinks that report more than len(p) in multi syncers. Since round 17: user sinks embedding *os.File under Lock; a buffered syncer over a locked syncer that is also written to directly.",
+    "C13": "cases = payloads (empty, whitespace-only, with/without trailing newline or CRLF, leading/trailing spaces, up to 1 MiB, arbitrary bytes) on zapio.Writer (enabled and disabled), the std-log bridge writer (NewStdLog, NewStdLogAt, RedirectStdLog+log.Writer), zaptest.TestingWriter (plain and markFailed) and BufferedWriteSyncer (sizes 0..256 KiB); multi-syncers of 1-5 scripted sinks over 1-4 calls with a full outcome vector per sink and call (count in {len, 0, 1, len-1}, error or nil, Sync error or nil) and exhaustive enumeration of all 16^k vectors for k<=2 (+ a slice of k=3); AddSync/Lock relays over scripted results; 2-8 goroutines of Write/Sync through Lock onto an overlap-detecting sink. Non-trivial = the minimum count is not at index 0, or a payload the writer trims/splits. Distinct = distinct outcome matrices / payload classes. Since session 3: Lock/AddSync/CombineWriteSyncers must relay the very error value (io and errno values, PathError) and stay usable afterwards; concurrent Write/Sync through Lock over combined and buffered syncers. Since round 7: Write / io.WriteString / fmt.Fprintf as interchangeable routes (all two-sink vectors exhaustively), multi syncer under Lock. Since round 8: caller-owned syncer lists with io.Discard members, unchanged after NewMultiWriteSyncer, combinator built twice. Since round 9: sinks failing with identical error texts. Since round 10: sinks embedding a mutex under Lock; AddSync of writers with Flush/Close/Stop. Since round 11: BufferedWriteSyncer stopped once before its first use. Since round 12: Lock over groups whose members are locked already, and a locked member also used directly. Since round 14: job multilong (a multi syncer over thousands of writes with destinations down for up to 2100 of them). Since round 15: sinks that report more than len(p) in multi syncers. Since round 17: user sinks embedding *os.File under Lock; a buffered syncer over a locked syncer that is also written to directly. Since round 18: CombineWriteSyncers() without inputs accepts writes.",
     "C20": "cases = (a) level texts: the seven names and 'warning' in every letter-case mix, '', near misses (spaces, prefixes, Level(7)), non-ASCII look-alikes (U+0130, dotless i, full-width, zero-width), arbitrary strings and bytes, against targets holding any of the 256 values, through Level.UnmarshalText, Set/flag parsing, ParseLevel, ParseAtomicLevel, AtomicLevel.UnmarshalText, JSON and YAML documents; a sweep of all 256 values through String/CapitalString/MarshalText/JSON/YAML/flag round trips; (b) sequences of 1-8 HTTP requests (GET, PUT, POST, DELETE, HEAD, PATCH, lower-case, unknown methods; JSON/form/other/no content type; well-formed JSON, odd JSON, form body, query parameter, both, garbage, empty) against one AtomicLevel shared with a live derived logger. Oracle = ASCII-only reference parser; HTTP invariants plus accept/reject known by construction. Non-trivial = invalid or mixed-case text; HTTP: a rejected request between two accepted PUTs with different levels. Distinct = distinct text classes / sequence shapes. Since session 3: valid names with a prefix/suffix; AtomicLevel.UnmarshalText keeps earlier copies attached; zero AtomicLevel target; response writers that fail, with the level changed while the response is written. Since round 8: MarshalText results are overwritten by the caller. Since round 9: gated PUT body with a cancelled request context (an error answer is final). Since round 11: overlapping PUT requests (a rejected one undoes nothing). Since round 12: JSON bodies naming the level several times with valid and invalid values. Since round 13: AtomicLevels that start at an unnamed level (GET reports it). Since round 14: one AtomicLevel set 2^24+1024 times; requests whose form a middleware has already read. Since round 16: a ResponseWriter that aborts the handler (panic with ErrAbortHandler) while the reply is sent. Since round 17: request bodies that are readers of the caller's own (ContentLength 0 = unknown).",
-    "C18": "cases = a tree of handlers built by 0-6 random WithGroup (names incl. '' and duplicates) / WithAttrs derivations from random parents, then records (slog levels -8..12 incl. the gaps, hostile messages) with 0-3 attributes logged through every handler twice in drawn orders; attributes are trees of every slog Kind (string, int64, uint64, bool, duration, float64, time, Any of error/stringer/slice/map/nil/struct/bytes), named groups, inline groups, literally empty groups, empty attrs and LogValuers resolving to any of those; core threshold -1..3. Oracle = reference model of the slog.Handler contract (ordered tree), plus key-nesting differential against slog.NewJSONHandler when every attribute is solid; Enabled/handled iff the core enables the mapped level; level mapping swept over -200..200. Non-trivial = deferred group opening (WithGroup then WithAttrs starting with an empty attr), or an empty group/attr via WithAttrs or via a LogValuer. Distinct = distinct (derivation sequence shape, threshold, class flags). Since session 3: handler over cores with context / an open namespace / lazy / sampler / hooked / increase-level / tee-with-observer; the caller's attributes must be unchanged after Handle/WithAttrs; a reused group holding a LogValuer whose result changes between records. Since round 9: job firstuse (derived handler used by several goroutines while its attributes are being encoded). Since round 11: tee with an errors-only branch. Since round 13: attributes without a key but with a value. Since round 16: an earlier record, through any handler of the tree, whose value panics while being encoded.",
+    "C18": "cases = a tree of handlers built by 0-6 random WithGroup (names incl. '' and duplicates) / WithAttrs derivations from random parents, then records (slog levels -8..12 incl. the gaps, hostile messages) with 0-3 attributes logged through every handler twice in drawn orders; attributes are trees of every slog Kind (string, int64, uint64, bool, duration, float64, time, Any of error/stringer/slice/map/nil/struct/bytes), named groups, inline groups, literally empty groups, empty attrs and LogValuers resolving to any of those; core threshold -1..3. Oracle = reference model of the slog.Handler contract (ordered tree), plus key-nesting differential against slog.NewJSONHandler when every attribute is solid; Enabled/handled iff the core enables the mapped level; level mapping swept over -200..200. Non-trivial = deferred group opening (WithGroup then WithAttrs starting with an empty attr), or an empty group/attr via WithAttrs or via a LogValuer. Distinct = distinct (derivation sequence shape, threshold, class flags). Since session 3: handler over cores with context / an open namespace / lazy / sampler / hooked / increase-level / tee-with-observer; the caller's attributes must be unchanged after Handle/WithAttrs; a reused group holding a LogValuer whose result changes between records. Since round 9: job firstuse (derived handler used by several goroutines while its attributes are being encoded). Since round 11: tee with an errors-only branch. Since round 13: attributes without a key but with a value. Since round 16: an earlier record, through any handler of the tree, whose value panics while being encoded. Since round 18: Enabled asked repeatedly over a sampling core changes nothing.",
     "C15": "cases = generated call paths executed for real: a logger prepared by 0-6 Sugar/Desugar/With/WithLazy/Named/WithOptions steps, AddCallerSkip(k) with k in 0..4 below exactly k non-inlined wrapper frames, below a recursion of depth {0,1,10,50,63,64,65,200,1000}, through every front end (Logger level methods, Log, Check+Write, all 33 Sugar methods, NewStdLog/NewStdLogAt Print/Printf/Println/Output, RedirectStdLog+log.Print, globals L/S, slog.Logger methods over the zapslog handler), stack-trace enabler = arbitrary level subset or threshold; plus a deterministic sweep of every front end x skip 0..2 x depth {0,100}. Oracle = the site captured on the same source line with an independent runtime.Callers walk. Non-trivial = (a Sugar/Desugar conversion and skip >= 1) or (depth >= 64 with the stack enabled). Distinct = distinct (front end, skip, depth, conversions, stack on/off, conversion chain). Since session 3: caller annotation on/off (stack traces do not depend on it), stack-trace enabler changed after derivation, hand-built slog Records (wrapper helpers), forced fresh pooled stack objects. Since round 8: calls made while a panic is unwinding; handler options slice overwritten after NewHandler. Since round 10: Config.Build route with optional omission of annotation keys. Since round 11: caller skips taken back before being re-added. Since round 14: job manysites (up to 300 distinct generated call sites visited in changing orders). Since round 15: the annotation of zap's own diagnostics about malformed sugared arguments (inside zap or at the user's call, never further up; trace starts where the caller points).",
     "C14": "cases = argument lists of length 0-9 mixing typed zap.Fields (from Spec trees), string keys (incl. empty, duplicate, 'error', 'ignored'), non-string keys (int, custom string type, slice, bool, float, struct, []byte, pointer), bare errors (plain, verbose, group, nil-pointer, panicking), nil and arbitrary values of every dynamic type zap.Any special-cases, in every order, through Debugw..Fatalw, Logw, With, WithLazy and With followed by a *w call, on enabled and fully disabled loggers; templates from a grammar of % verbs with 0-5 arguments through print-, printf-, println-style and Log/Logf/Logln at every level. Oracle = independent reference sweep from the With documentation (fields compared by key/type/recorded calls; every diagnostic must be matched by an Error-level entry identifying the item) and fmt.Sprint/Sprintf/Sprintln. Non-trivial = a Field or error before a pair (parity shift) or any invalid item; message job: formatting with arguments. Distinct = distinct (mode, level, argument kind sequence). Since session 3: values implementing several interfaces; sugared loggers obtained through WithOptions/Desugar().Sugar()/Named(\"\")/With(); job twocalls: two calls through one retaining core (the first possibly a really panicking Panicw), both checked against the reference afterwards. Since round 8: argument slices refilled after With/WithLazy before the child's first use. Since round 10: development-mode loggers. Since round 14: job longlived (the same argument lists up to 450 times on one family of sugared loggers: the same records every time). Since round 16: an earlier sugared call on an encoding core that was aborted by a panicking value.",
-    "C11": "cases = first N and thereafter M in 0..6 plus large values, tick 1ns..10s, sequences of 1-60 entries with level in {-2,-1,0,1,2,5,6,100}, message from an alphabet with pre-computed FNV-colliding pairs, timestamps advancing by {0,1,tick-1,tick,tick+1,...}, wrapped core threshold drawn, entries through the sampler, two With-derived samplers (shared budget) and an independent sampler (own budget), decision hook recorded; a Logger path with a stepped clock; concurrent: one entry opens a window, then 2-8 goroutines x 1-200 entries of the same key inside it. Reference model from the statement using hash/fnv. Non-trivial = (entry exactly at a window end and a dropped entry and a thereafter admission) or a colliding pair sharing a budget. Distinct = distinct (N, M, tick, threshold, class flags, length class). Since session 3: non-ASCII and invalid-UTF-8 messages incl. colliding pairs, long messages differing after a 255..70000-byte common prefix, entries stamped earlier than their predecessors (counted in the window open for their key). Since round 7: entries carry logger names, callers and stacks. Since round 8: job config (Config.Build's sampler, SamplingConfig edited after Build); the sibling beside a sampler in a tee receives every entry. Since round 10: sampler over a tee. Since round 14: job longwindow (one key in one window for up to 450000 entries with thereafter up to 100000); stamp epochs 1970/2019/2200. Since round 16: job hookpanic (the decision hook panics for one entry; a new window still starts with a new budget).",
+    "C11": "cases = first N and thereafter M in 0..6 plus large values, tick 1ns..10s, sequences of 1-60 entries with level in {-2,-1,0,1,2,5,6,100}, message from an alphabet with pre-computed FNV-colliding pairs, timestamps advancing by {0,1,tick-1,tick,tick+1,...}, wrapped core threshold drawn, entries through the sampler, two With-derived samplers (shared budget) and an independent sampler (own budget), decision hook recorded; a Logger path with a stepped clock; concurrent: one entry opens a window, then 2-8 goroutines x 1-200 entries of the same key inside it. Reference model from the statement using hash/fnv. Non-trivial = (entry exactly at a window end and a dropped entry and a thereafter admission) or a colliding pair sharing a budget. Distinct = distinct (N, M, tick, threshold, class flags, length class). Since session 3: non-ASCII and invalid-UTF-8 messages incl. colliding pairs, long messages differing after a 255..70000-byte common prefix, entries stamped earlier than their predecessors (counted in the window open for their key). Since round 7: entries carry logger names, callers and stacks. Since round 8: job config (Config.Build's sampler, SamplingConfig edited after Build); the sibling beside a sampler in a tee receives every entry. Since round 10: sampler over a tee. Since round 14: job longwindow (one key in one window for up to 450000 entries with thereafter up to 100000); stamp epochs 1970/2019/2200. Since round 16: job hookpanic (the decision hook panics for one entry; a new window still starts with a new budget). Since round 18: NewProduction samples like NewProductionConfig().Build.",
     "C06": "cases = configurations drawn from the product core {JSON over a 1 MiB/1 h BufferedWriteSyncer over a recording sink, tee with observer in either order, no-op, sampler that drops everything, level-increased} x threshold -1..7 x development on/off x hook {default, nil, WriteThenNoop, WriteThenGoexit, custom recording} x level {DPanic, Panic, Fatal} x every front end (Logger methods, Log, Check+Write, all Sugar variants, NewStdLogAt Print/Printf/Println/Output, RedirectStdLogAt, zapgrpc Fatal*, globals L/S; completeness checked by reflection); a deterministic sweep of 5130 configurations; child processes re-executing the test binary with the real default actions, a real file and a buffered sink. Non-trivial = entry disabled/no-op/sampled-out, nil or no-op hook, or enabled entry behind the buffer. Distinct = distinct configurations. Since session 3: failing destinations (sink write/sync errors, failing core before/after), unbuffered core, ordinary entries logged before the terminal one, other members of the logger family derived with different hooks, hooks that log before reading their entry, and a gate job that parks one Sync inside the sink while the terminal entry is logged. Since round 7: job build (Config.Build over all flag combinations and the presets, every front end); 0-2 earlier non-terminating entries at the crash level; Sync faults reporting EINVAL/ENOTTY/*PathError. Since round 8: front end with fields from a scratch slice recycled in a deferred function (observer record checked). Since round 10: NewNop-/New(nil)-rooted loggers; terminal hooks on zero-valued value types. Since round 11: BufferedWriteSyncer stopped once before its first use. Since round 12: options given through SugaredLogger.WithOptions or split over alternating Logger/Sugar WithOptions calls. Since round 14: tees whose observing branch is a hooked core, listed first or last. Since round 17: terminal actions over a user core that records the entry at a lower level.",
     "C05": "cases = core-composition trees (depth <= 4, tees of 0-3 branches) of observer and JSON IO leaves under tee / increase-level / hooks / pass-all sampler / lazy-with / With wrappers, each enabler an arbitrary subset of all 256 level values (monotone, non-monotone, empty) or a shared AtomicLevel; then a rapid state-machine history: log at any of the 256 levels through Log, Check+Write, level methods, Sugar Log/Logw/Logf/Logln, zapgrpc, slog handler; SetLevel on a shared AtomicLevel to any value; derive children (With, Named, WithLazy, WithOptions(IncreaseLevel/Hooks)); read Enabled for all 256 values, Logger.Level, LevelOf, gRPC V, slog Enabled. Reference model written from the statement decides deliveries, hook calls and marshaling counts after every op. Non-trivial = tree depth >= 2 with a tee whose branches differ in enablement for the logged level or a hook behind a tee, or an AtomicLevel change between two logs. Distinct = distinct (tree shape with enabler kinds, number of derived loggers, class flags). Since session 3: std-log bridge, zapio.Writer and sugared level methods as front ends. Since round 8: caller-owned core lists with no-op members must be unchanged after NewTee; hooks registered from a recycled slice; node kind dropper (sampler with an empty budget). Since round 9: slog levels between and beyond the named ones. Since round 11: options applied on the sugared side of a Sugar/Desugar round trip. Since round 14: job longlived (up to 270000 entries through a tee with a hooked core among siblings: hooks once per accepted entry, each branch its own entries). Since round 17: user enablers that also have a Level() method without being thresholds (shared with C15's stack-trace enabler).",
     "C08": "cases = metamorphic: a probe call P (generated EncoderConfig, JSON or console, With context, field tree with failing members, any level incl. Panic/Fatal with returning hooks, caller+stack on/off, call depth 0/3/70) issued from one source line before and after a generated history H (1-14 ops on OTHER loggers: logs of very different sizes, namespaces left open, reflected values, error arrays, deep stack captures, terminal levels with returning hooks, encoder clones, double GC, pool poisoning with a sentinel through internal/bufferpool), after GC, after H again; concurrent variant with 2-6 goroutines running histories while P is observed. Oracle = byte-identical output and identical side effects (sink writes, terminal hook and entry hook counts); sentinel never visible. Non-trivial = H uses at least one pool and contains a buffer > 1KiB. Distinct = distinct (probe shape, multiset of history op kinds, probe field kinds). Since session 3: history ops with failing sinks, unencodable reflected values and panicking user marshalers; probe may derive a With child per call; terminal hooks must be handed P's own entry; phase 'GC, history, P'; sibling custom reflected encoders. Since round 7: history may include traffic on the probe's own logger, its children and siblings. Since round 8: the probe's fields are encoded once through the map encoder and the kept map must read the same after every history phase. Since round 12: probe loggers with a caller skip and entries logged from goroutines too shallow for it; a phase in which P's own encoder callbacks log another entry through the same logger. Since round 13: failing entries written through a bare core right after P leave the error output of P's logger silent. Since round 16: histories in which user code panics and the caller recovers - marshalers inside open namespaces and nested objects, the encoder configuration's level/caller/name callbacks, hooks.",
-    "C07": "cases = rapid state machine over a growing tree of loggers: derive from a random node by With / WithLazy / Named / WithOptions(Fields) / Sugar / Desugar (sugared equivalents included), fields incl. namespaces, Spec values and objects backed by a marshaler the machine mutates between steps; log through random nodes; GC; finally log through every node in a drawn order; over 10 core compositions (JSON, console, observer, tees, sampler, hooked, level-increased, lazy, all combined). Model = per-node ordered path fields with explicit evaluation time (With: at derivation; WithLazy: at first use of the node or of any descendant core). Non-trivial = a log through a node whose parent has context and >= 2 children after >= 3 derivations, or a lazy node pending while its marshaler was mutated. Distinct = distinct (core kind, derivation tree shape). Job slogtree: the same state machine over exp/zapslog handlers (WithAttrs incl. lists made only of attributes a handler must ignore, WithGroup incl. the empty name, logging through random handlers between derivations, 9 core compositions incl. a core that ends in an open namespace); model = the slog.Handler nesting rules shared with C18. Since round 8: call-site field slices are recycled; observed entries are scrubbed in place after checking. Since round 9: job lazyfirstuse (the harness parks the first evaluation of deferred fields on a gate while other goroutines make their first call); dotted logger names. Since round 13: action query (Level, Name, Core().Enabled, LevelOf asked of any logger): asking is not using, a pending WithLazy stays pending. Since round 14: job longchain (a logger re-derived from itself up to 700 times through With/WithLazy/Sugar over observer, JSON and tee cores, checkpoints along the chain and at the end). Since round 17: derivation wrap (an application's registering, Write-forwarding core on top of any logger incl. unused WithLazy ones).",
+    "C07": "cases = rapid state machine over a growing tree of loggers: derive from a random node by With / WithLazy / Named / WithOptions(Fields) / Sugar / Desugar (sugared equivalents included), fields incl. namespaces, Spec values and objects backed by a marshaler the machine mutates between steps; log through random nodes; GC; finally log through every node in a drawn order; over 10 core compositions (JSON, console, observer, tees, sampler, hooked, level-increased, lazy, all combined). Model = per-node ordered path fields with explicit evaluation time (With: at derivation; WithLazy: at first use of the node or of any descendant core). Non-trivial = a log through a node whose parent has context and >= 2 children after >= 3 derivations, or a lazy node pending while its marshaler was mutated. Distinct = distinct (core kind, derivation tree shape). Job slogtree: the same state machine over exp/zapslog handlers (WithAttrs incl. lists made only of attributes a handler must ignore, WithGroup incl. the empty name, logging through random handlers between derivations, 9 core compositions incl. a core that ends in an open namespace); model = the slog.Handler nesting rules shared with C18. Since round 8: call-site field slices are recycled; observed entries are scrubbed in place after checking. Since round 9: job lazyfirstuse (the harness parks the first evaluation of deferred fields on a gate while other goroutines make their first call); dotted logger names. Since round 13: action query (Level, Name, Core().Enabled, LevelOf asked of any logger): asking is not using, a pending WithLazy stays pending. Since round 14: job longchain (a logger re-derived from itself up to 700 times through With/WithLazy/Sugar over observer, JSON and tee cores, checkpoints along the chain and at the end). Since round 17: derivation wrap (an application's registering, Write-forwarding core on top of any logger incl. unused WithLazy ones). Since round 18: Sync through every kind of derived logger (incl. unused WithLazy children) reaches a shared buffer's sink; derivations made while an AtomicLevel under IncreaseLevel is higher than the increased level keep their fields.",
     "C03": "cases = one row per exported constructor of field.go/array.go/error.go/exp/zapfield (completeness checked against the parsed source at run time) with full-range values and boundary tables, through the value, pointer, slice and zap.Any routes; field lists with nested marshalers; values that zap.Any does not special-case. Oracle = independent recording encoder (exact value, bits, instant+zone, byte-identical slices, explicit null, no call for nil errors), Any vs typed constructor agreement, Equals laws. Non-trivial = boundary/extreme value, pointer, slice, nil pointer, time or Any route. Distinct = distinct (constructor kind, value class, ptr, any) resp. kind multisets. excluded_known counts reflexivity assertions skipped for K1 inputs. Since session 3: every slice handed to a constructor is snapshotted and must be unchanged after AddTo; values implementing several of ObjectMarshaler/ArrayMarshaler/error/Stringer (job anymulti). Since round 7: time zones sharing a name but not their rules. Since round 8: ObjectValues marshalers must run on the caller's own elements. Since round 9: one pointer-typed error group encoded by two goroutines at once; verbose errors of the same length as their message. Since round 11: Equals between an error field and one wrapping it; time fields across a change of time.Local. Since round 14: a process that has already encoded thousands of troublesome fields (errors whose Error panics, failing marshalers, nil Stringers). Since round 15 (shared generators): errors that wrap several errors (Unwrap() []error) with a verbose form, and errors.Join results. Since round 17: zap.Objects/ObjectValues into a user's two-pass array encoder.",
     "C01": "cases = EncoderConfig (keys empty/hostile/duplicate; built-in, nil, no-op and layout sub-encoders; line endings) x Entry (any int8 level, hostile zones, caller, stack) x 0-3 With rounds x call-site fields from typed Spec trees (all constructor families, zap.Any routing, nesting depth <= 3, failing marshalers, panicking/nil stringers and errors, unencodable reflected values). Non-trivial = has a nested marshaler, namespace, failing member, non-empty With context, nil/no-op/layout sub-encoder or hostile key. Distinct = distinct (config shape, field-kind multiset, depth, fault count, With rounds). Since session 3: custom NewReflectedEncoder closures (HTML escaping on/off from one function literal, and one that has written partial output when it fails), caller paths of every short shape. Since round 7: a neighbouring encoder with an indenting closure of the same reflected-encoder literal runs before each case; the caller's field slice must be unchanged after EncodeEntry. Since round 8: field slices given to With/Write are recycled after the call; the streaming reflected encoder wipes its 16-byte scratch buffer after every Write.",
     "C02": "cases = as C01 with built-in/nil/no-op sub-encoders (D3), each Spec tree carrying its expected ordered tree; plus single-kind scalar batches over full ranges. Non-trivial = extreme numeric (NaN/Inf/uint64>2^63/min-max), invalid UTF-8, nesting depth >= 2 or a namespace inside a nested object (scalar job: time/duration/complex/float32 or extreme). Distinct = distinct (config shape, kind multiset, depth) resp. (kind, time encoder, duration encoder, ptr, any). Since session 3: whole-number floats around 2^31/2^32/2^53/2^63/2^64, powers of two and ten; custom reflected encoders; caller paths of every short shape. Since round 10: typed-nil reflected values of named collection types with marshalers; nil-safe pointer Stringers. Since round 16: the map encoder after a marshaler panicked (recovered by the caller). Since round 17: a user's reflected encoder is handed every reflected value (all basic types, at the call site, in With, as array element).",
-    "C10": "cases = (a) field trees with fault sites (marshaler errors before/between/after members, panicking or nil Stringer/error, nil elements, unencodable reflected values) drawn with 45% probability per container, logged through a tee of JSON, console and observer cores; (b) tees of 1-4 IO cores over multi-syncers of 1-3 scripted sinks plus custom failing cores, per-entry outcome vectors (ok/error/short+error/zero+error, Sync error), 1-6 entries, plain/delegating/nested tee; small shapes (<=2 cores x <=2 sinks x <=2 entries, 4 outcomes) enumerated exhaustively. Non-trivial = (a) >= 2 faults or a fault inside a nested container, (b) >= 2 destinations with a failing one before a healthy one. Distinct = distinct kind multisets+fault depth resp. distinct outcome matrices. Since session 3: sink errors whose Error method panics (typed nil pointer, explicit panic). Since round 8: failing entry hooks registered from a recycled slice on every second custom core. Since round 10: default error output (os.Stderr at construction time); Stringers over uncomparable element types. Since round 11: closed-file sink errors. Since round 14: job longrun (the same failing fields logged up to 4200 times through one logger, a healthy entry in between: byte-identical every time).",
+    "C10": "cases = (a) field trees with fault sites (marshaler errors before/between/after members, panicking or nil Stringer/error, nil elements, unencodable reflected values) drawn with 45% probability per container, logged through a tee of JSON, console and observer cores; (b) tees of 1-4 IO cores over multi-syncers of 1-3 scripted sinks plus custom failing cores, per-entry outcome vectors (ok/error/short+error/zero+error, Sync error), 1-6 entries, plain/delegating/nested tee; small shapes (<=2 cores x <=2 sinks x <=2 entries, 4 outcomes) enumerated exhaustively. Non-trivial = (a) >= 2 faults or a fault inside a nested container, (b) >= 2 destinations with a failing one before a healthy one. Distinct = distinct kind multisets+fault depth resp. distinct outcome matrices. Since session 3: sink errors whose Error method panics (typed nil pointer, explicit panic). Since round 8: failing entry hooks registered from a recycled slice on every second custom core. Since round 10: default error output (os.Stderr at construction time); Stringers over uncomparable element types. Since round 11: closed-file sink errors. Since round 14: job longrun (the same failing fields logged up to 4200 times through one logger, a healthy entry in between: byte-identical every time). Since round 18: marshaler failures whose error text is empty.",
     "C16": "cases = C01's EncoderConfig x Entry x With-chain x fields through the console encoder. Non-trivial = at least one metadata column present and one omitted, and a non-empty context with a namespace or nested value. Distinct = distinct (column presence pattern, config shape, kind multiset). Since round 7: the caller's field slice must be unchanged after EncodeEntry; neighbouring indenting reflected encoder as in C01. Since round 11: the entry re-encoded by a used encoder must equal the fresh encoder's output.",
     "C17": "cases = generated op sequences (Write chunks over a newline-heavy alphabet incl. empty/lone-newline/long-run/raw-byte chunks, Sync at arbitrary positions, final Close) checked against a pending-line reference model, plus two independent partitions of one stream (metamorphic) and disabled/switching levels. Non-trivial = at least 2 writes with a line spanning a chunk boundary and an empty interior line (level job: additionally disabled or switched). Distinct = distinct (job, op-kind/chunk-class sequence) signatures. Since session 3: exact model under level switching (Sync is a split point also while disabled; bytes written while disabled are dropped); the writer over sampling (reference model of C11), hooked, tee and increase-level cores. Since round 7: chunks arrive by Write, io.WriteString, io.Copy, io.CopyBuffer(7 bytes) or fmt.Fprint. Since round 16: the Writer after a hook under its logger panicked for one line of a chunk (nothing buffered): later chunks split exactly, every call returns.",
 }
